@@ -186,3 +186,43 @@ Example C03_ex_errors :
   /\ is_ok (apply_preset {| sp_min := 771; sp_max := 772; sp_suites := [4865]; sp_comp := [0];
                             sp_exts := [SExt (EKeyShare [(30, [])])] |} ex_cfg ex_fresh) = false.
 Proof. split; vm_compute; reflexivity. Qed.
+
+(* ======================================================================================================
+   Composition with the byte-level marshaller and the strict parser (Proofs/ComposeC03.v, on top of
+   Proofs/ComposeP.marshal_shape = C02's layout theorem with the extension block characterised exactly): item (a) of
+   the "PARTIAL" note above is now a theorem. For every spec, Config and randomness: if [build] returns bytes, and the
+   extension values ApplyPreset left are inside the C02 precondition (ChMarshal.wf_specb: wire limits, RFC minimum
+   sizes, types pairwise distinct, pre_shared_key last) with totals that fit the length fields (spec_fitsb), then
+   [parse_hello] reads those bytes back as exactly "header fields + extensions as their reference layouts encode
+   them" (the padding extension in whatever state the marshaller's Update left it), and hence the PARSED hello
+   satisfies the property oracle. Still premises: wf_specb / spec_fitsb of ApplyPreset's output (item (b); evaluated for
+   Chrome_133 below and for every CBuild case on every run) and sp_comp = [0]. Item (c) (arrange vs C03_shuffle) is unchanged.
+   ====================================================================================================== *)
+From UV Require Model.ChMarshal Proofs.ComposeC03.
+
+Theorem C03_build_parses : forall sp c fr h es raw,
+  apply_preset sp c fr = Ok (h, es) -> build sp c fr = Ok raw ->
+  ChMarshal.wf_specb h es = true -> ChMarshal.spec_fitsb 0%Z h es = true ->
+  exists pl pw, parse_hello raw = Some (ast_of h (map (set_pad pl pw) es)).
+Proof. exact ComposeC03.build_parses. Qed.
+Print Assumptions C03_build_parses.
+
+(* C03_generic_partial, stated over the parsed BYTES *)
+Theorem C03_generic : forall sp c fr h es raw name,
+  apply_preset sp c fr = Ok (h, es) -> build sp c fr = Ok raw ->
+  ChMarshal.wf_specb h es = true -> ChMarshal.spec_fitsb 0%Z h es = true -> sp_comp sp = [0] ->
+  exists a, parse_hello raw = Some a
+            /\ ast_matches_specb a {| p_name := name; p_spec := sp; p_shuffles := false |} c = true.
+Proof. exact ComposeC03.build_matches. Qed.
+Print Assumptions C03_generic.
+
+(* the premises hold for a shipped parrot with concrete randomness *)
+Example C03_ex_generic_premises :
+  match apply_preset (p_spec Parrots.p_Chrome_133) ex_cfg ex_fresh, build (p_spec Parrots.p_Chrome_133) ex_cfg ex_fresh with
+  | Ok (h, es), Ok _ => ChMarshal.wf_specb h es && ChMarshal.spec_fitsb 0%Z h es
+  | _, _ => false
+  end = true.
+Proof. vm_compute. reflexivity. Qed.
+
+(* imported last, for the driver's closure scan only (lib/vcheck.py follows "Require Import" lines); nothing follows *)
+From UV Require Import Proofs.ComposeP Proofs.ComposeC03.
